@@ -115,9 +115,25 @@ def run(prog: Program, L: Ledger) -> None:
     if not obs_calls:
         raise AnalysisError("call_observers: no call of the observer found")
     inl = Inliner(callobs.node)
+    # statements before the fan-out loop may leave early: their guards are part of the schedule
+    pre_guards = []
+    for st in callobs.body():
+        if st is loop:
+            break
+        if isinstance(st, ast.If):
+            leaves = any(isinstance(x, ast.Return) for x in st.body) and not st.orelse
+            if leaves:
+                pre_guards.append(st.test)
+            elif any(isinstance(x, (ast.Return, ast.Raise)) for x in walk_no_nested(st)):
+                raise AnalysisError("call_observers: conditional exit before the fan-out loop outside the recognised `if …: return` form")
+        elif isinstance(st, (ast.Return, ast.Raise)):
+            raise AnalysisError("call_observers: unconditional exit before the fan-out loop")
 
     def fires(env) -> bool | str:
         """Does any observer() call execute for this env? (number of calls must be ≤ 1)"""
+        for g in pre_guards:
+            if bool(ev(inl.inline(g), env)):
+                return 0
         n = 0
         for c in obs_calls:
             ok = True
@@ -132,7 +148,8 @@ def run(prog: Program, L: Ledger) -> None:
     domain = []
     for i in range(-7, 8):
         for s in range(0, 21):
-            domain.append({f"{var}.interval": i, "self.step_count": s})
+            for li in (1, 2, 3, 4):
+                domain.append({f"{var}.interval": i, "self.step_count": s, "self.logging_interval": li})
     bad = None
     try:
         for env in domain:
@@ -143,14 +160,14 @@ def run(prog: Program, L: Ledger) -> None:
             except Raises as r:
                 got = f"raises {r.what}"
             if got != want:
-                bad = (i, s, got, want)
+                bad = (i, s, got, want, f", driver logging_interval={env['self.logging_interval']}" if pre_guards else "")
                 break
     except PredUnsupported as exc:
         raise AnalysisError(f"call_observers guard: {exc}") from exc
     gtxt = " / ".join(norm(inl.inline(g)) for c in obs_calls for g, _ in guards_of[id(c)])
     L.check(bad is None, "O1", "call_observers:guard", f"{callobs.module.relpath}:{obs_calls[0].lineno}",
-            "observer guard differs from the schedule: " + (f"interval={bad[0]}, step={bad[1]}: observer called {bad[2]}×, schedule says {bad[3]}×" if bad else ""),
-            (f"observer with interval {bad[0]} at step {bad[1]}" if bad else ""), gtxt)
+            "observer guard differs from the schedule: " + (f"interval={bad[0]}, step={bad[1]}{bad[4]}: observer called {bad[2]}×, schedule says {bad[3]}×" if bad else ""),
+            (f"observer with interval {bad[0]} at step {bad[1]}{bad[4]}" if bad else ""), gtxt + "".join(" ; early-exit: " + norm(g) for g in pre_guards))
     L.extra["guard_domain_points"] = len(domain)
     # attach_observer really stores into .observers
     om = prog.cls("ObserverManager")
